@@ -150,6 +150,100 @@ theorem cadence_step_exact (step : Nat) (hd : 0 < step) (p next : Nat) (ts : Lis
     · simp only [hle, if_false, ExactStep, false_iff, not_false_eq_true, Bool.false_eq_true, false_implies, true_and]
       exact ih t next (by omega) hr
 
+/-! ### the cadence state survives a restart -/
+def intNe : Int → Int → Bool := fun a b => decide (a ≠ b)
+
+theorem run_append (s d next : Int) (a b : List Int) :
+    run intOps s d next (a ++ b) =
+      ((run intOps s d next a).1 ++ (run intOps s d (run intOps s d next a).2 b).1,
+       (run intOps s d (run intOps s d next a).2 b).2) := by
+  induction a generalizing next with
+  | nil => simp [run]
+  | cons t r ih => simp only [List.cons_append, run_cons, ih]
+
+theorem runStep_append (step next : Nat) (a b : List Nat) :
+    runStep step next (a ++ b) =
+      ((runStep step next a).1 ++ (runStep step (runStep step next a).2 b).1,
+       (runStep step (runStep step next a).2 b).2) := by
+  induction a generalizing next with
+  | nil => simp [runStep]
+  | cons t r ih => simp only [List.cons_append, runStep, ih]
+
+/-- re-arming with the interval found in the snapshot leaves the prescribed time alone -/
+theorem arm_same (d next t : Int) : arm intNe d next d t = (d, next) := by simp [arm, intNe]
+
+/-- re-arming with another interval starts a new cadence at the current time -/
+theorem arm_changed (d d' next t : Int) (h : d ≠ d') : arm intNe d next d' t = (d', t) := by simp [arm, intNe, h]
+
+/-- the heartbeat that wrote a snapshot does not fire a second time at the same boundary, provided the boundary was
+    less than one interval past the prescribed time (which `cadence_exact` gives for steps no longer than the interval) -/
+theorem hb_no_refire (s d next t : Int) (hs : s = 1 ∨ s = -1) (hfire : s * next ≤ s * t) (hnl : s * t < s * next + d) :
+    hb intOps s d (next + s * d) t = (false, next + s * d) := by
+  rw [hb_int]
+  have : ¬ (s * (next + s * d) ≤ s * t) := by rcases hs with rfl | rfl <;> omega
+  simp [this]
+
+/-- ... and it DOES fire again when the prescribed time lags by a whole interval or more (finding
+    `cadence:lagging-next-duplicate`: the model follows the source) -/
+theorem hb_refire_lagging (s d next t : Int) (hlag : s * (next + s * d) ≤ s * t) :
+    (hb intOps s d (next + s * d) t).1 = true := by
+  rw [hb_int]; simp [hlag]
+
+/-- **restart neither skips nor duplicates.**  Uninterrupted run over the boundaries `ts1 ++ t :: ts2`; the heartbeat at
+    `t` writes snapshot k (and `t` is less than an interval past the prescribed time).  Restart from snapshot k with the
+    persisted state, re-arm with the same interval, integrate on: the heartbeat at `t` stays silent, every later
+    boundary gets a snapshot iff it got one in the uninterrupted run, and the final cadence state is the same. -/
+theorem restart_exact (s d next0 t : Int) (ts1 ts2 : List Int) (hs : s = 1 ∨ s = -1)
+    (hfire : s * (run intOps s d next0 ts1).2 ≤ s * t) (hnl : s * t < s * (run intOps s d next0 ts1).2 + d) :
+    let n1 := (run intOps s d next0 ts1).2
+    let rest := run intOps s d (n1 + s * d) ts2
+    run intOps s d next0 (ts1 ++ t :: ts2) = ((run intOps s d next0 ts1).1 ++ true :: rest.1, rest.2) ∧
+    restart intOps intNe s d (n1 + s * d) d t ts2 = (false :: rest.1, rest.2) := by
+  intro n1 rest
+  constructor
+  · rw [run_append, run_cons, hb_int]
+    simp only [hfire, if_true]; rfl
+  · simp only [restart, arm_same]
+    rw [run_cons, hb_no_refire s d n1 t hs hfire hnl]
+
+/-- lagging prescribed time: the restarted run writes snapshot k a second time -/
+theorem restart_lagging_duplicates (s d n1 t : Int) (ts2 : List Int) (hlag : s * (n1 + s * d) ≤ s * t) :
+    (restart intOps intNe s d (n1 + s * d) d t ts2).1.head? = some true := by
+  simp only [restart, arm_same]
+  rw [run_cons]
+  simp [hb_refire_lagging s d n1 t hlag]
+
+/-- re-arming with a different interval after the restart: a snapshot at the restart time, then the new cadence -/
+theorem restart_rearmed (s d d' pn t : Int) (ts2 : List Int) (h : d ≠ d') :
+    restart intOps intNe s d pn d' t ts2 = (true :: (run intOps s d' (t + s * d') ts2).1, (run intOps s d' (t + s * d') ts2).2) := by
+  simp only [restart, arm_changed d d' pn t h]
+  rw [run_cons, hb_int]; simp
+
+theorem hbStep_no_refire (step next sd : Nat) (hfire : next ≤ sd) (hnl : sd < next + step) :
+    hbStep step (next + step) sd = (false, next + step) := by
+  simp only [hbStep]
+  have : ¬ (next + step ≤ sd) := by omega
+  simp [this]
+
+theorem restartStep_exact (step next0 sk : Nat) (ts1 ts2 : List Nat)
+    (hfire : (runStep step next0 ts1).2 ≤ sk) (hnl : sk < (runStep step next0 ts1).2 + step) :
+    let n1 := (runStep step next0 ts1).2
+    let rest := runStep step (n1 + step) ts2
+    runStep step next0 (ts1 ++ sk :: ts2) = ((runStep step next0 ts1).1 ++ true :: rest.1, rest.2) ∧
+    restartStep step (n1 + step) step sk ts2 = (false :: rest.1, rest.2) := by
+  intro n1 rest
+  constructor
+  · rw [runStep_append]
+    simp only [runStep, hbStep, hfire, if_true]; rfl
+  · simp only [restartStep, armStep, ne_eq, not_true_eq_false, if_false]
+    simp only [runStep]
+    rw [hbStep_no_refire step n1 sk hfire hnl]
+
+/-- wall-time mode is re-armed unconditionally: the restarted run writes a snapshot at once (documented in
+    simulationarchive.c:654 "this will create two snapshots if restarted") -/
+theorem wall_restart_fires (d w : Int) : (hbWall intOps d (armWall d w).2 w).1 = true := by
+  simp [armWall, hbWall_int]
+
 /-- the index arrays are always large enough: slot `i` exists when iteration `i` writes it, and the loop
     bound `i < nblobsmax` never ends the walk -/
 theorem cap_ok (i : Nat) : i < capAt i := by
